@@ -456,11 +456,17 @@ class State:
         """remember the input assumptions (everything asserted so far): loop cuts reset the constraint store to them"""
         self.tags["base"] = (list(self.defs), dict(self.true_ids), dict(self.false_ids), list(self.groups))
 
-    def define(self, fresh_vars, constraints):
-        """definition of fresh variables (always satisfiable); may be dropped from a VC when unused"""
+    def define(self, fresh_vars, constraints, heavy=False):
+        """definition of fresh variables (always satisfiable); may be dropped from a VC when unused.
+        heavy: non-linear definitions that feasibility pruning leaves out (pruning with fewer constraints stays sound)"""
         cs = tuple(constraints)
         self.defs.extend(cs)
         self.groups.append((tuple(fresh_vars), cs))
+        if heavy:
+            hv = dict(self.tags.get("heavy", {}))
+            for c in cs:
+                hv[c.get_id()] = c
+            self.tags["heavy"] = hv
 
     def pruned_constraints(self, goal=None, extra=()):
         """constraints without the definitions of fresh variables that nothing else mentions"""
@@ -619,7 +625,10 @@ class Executor:
         nunk = st.tags.get("feas_unknowns", 0)
         # satisfiable non-linear queries tend to stay hard along a path: shrink the cap after repeated unknowns
         s.set("timeout", self.feas_timeout_ms if nunk < 2 else max(40, self.feas_timeout_ms // 6))
+        heavy = st.tags.get("heavy")
         for c in st.constraints():
+            if heavy and not isinstance(c, bool) and c.get_id() in heavy:
+                continue
             s.add(c)
         if cond is not None:
             s.add(cond)
